@@ -32,6 +32,7 @@ from .common import parallel_map
 RULE = ("cases = environment deltas (synthetic old/new pairs; sequences of real table actions with and without "
         "--force; setup/unsetup on real stacks whose product directories contain blanks and < > | & ; ( )) rendered by "
         "the real eups.app.setup and sourced by dash and bash, plus command texts run by both shells against shEval; "
+        "plus every value of length <= 2 (thorough: 3) over a 14-symbol alphabet of metacharacters; "
         "a delta case is non-trivial when at least one command is emitted, a shell text when it lies in the modelled "
         "fragment and changes the environment; distinct = distinct case digests")
 TRUSTED = ["/bin/dash and /bin/bash as installed (the word-level shell model shEval is compared with both on every run, "
@@ -170,6 +171,19 @@ def gen_emit(rng):
                     old_aliases.append([k, v if rng.random() < 0.5 else None])
             else:
                 old_aliases.append([k, None])
+    if opts["isEups"] and not opts["fwd"] and rng.random() < 0.8:
+        # unsetup eups: the variables app.setup drops are in the caller's environment, and Eups.setup leaves them
+        # untouched, changes them or has removed them already
+        for k in ("EUPS_PATH", "EUPS_PKGROOT", "EUPS_SHELL"):
+            if rng.random() < 0.8:
+                v = gen_value(rng, claim)
+                old = [x for x in old if x[0] != k] + [[k, v]]
+                new = [x for x in new if x[0] != k]
+                r = rng.random()
+                if r < 0.6:
+                    new.insert(rng.randint(0, len(new)), [k, v])
+                elif r < 0.85:
+                    new.insert(rng.randint(0, len(new)), [k, gen_value(rng, claim)])
     forgotten = [k for k, _ in old if rng.random() < 0.15] if rng.random() < 0.3 else []
     return {"kind": "emit", "old": old, "forgotten": forgotten, "new": new, "aliases": aliases,
             "oldAliases": old_aliases, "opts": opts}
@@ -200,6 +214,10 @@ def gen_acts(rng):
             continue
         r = rng.random()
         fwd = rng.random() < 0.55
+        if rng.random() < 0.12:
+            ak, av = rng.choice([("ll", "ls -l"), ("e", "echo hi"), ("gg", "git grep \"$@\""), ("KEEP", "true")])
+            acts.append({"op": "alias", "fwd": fwd, "k": ak, "v": av})
+            continue
         if r < 0.5:
             v = gen_value(rng) if rng.random() < 0.85 else ""
             if "-f" == v or v.startswith("-f"):
@@ -270,6 +288,23 @@ def gen_stack(rng):
                      "local": fwd and rng.random() < 0.2})
         state = fwd
     extra = [["KEEP", "k e e p"], ["LD_LIBRARY_PATH", "/usr/lib"]] if rng.random() < 0.5 else [["KEEP", "k"]]
+    if rng.random() < 0.2:
+        # eups managing itself: `setup eups` ... `unsetup eups` must leave EUPS_PATH / EUPS_PKGROOT / EUPS_SHELL unset
+        lines = ["envPrepend(PATH, ${PRODUCT_DIR}/bin)"]
+        if rng.random() < 0.6:
+            lines.append("envAppend(EUPS_PATH, /opt/extra)")
+        if rng.random() < 0.5:
+            lines.append("envSet(EUPS_DIR, ${PRODUCT_DIR})")
+        if rng.random() < 0.3:
+            lines.append("envSet(EUPS_PKGROOT, http://z/pkgs)")
+        d = weird_dirname(rng)
+        prods.append({"name": "eups", "version": "1", "dir": d,
+                      "tablemode": "external" if any(c in d for c in "()|+*?[]{}^$\\") else "ups",
+                      "table": "\n".join(lines) + "\n"})
+        if rng.random() < 0.6:
+            extra.append(["EUPS_PKGROOT", rng.choice(["http://x/pkgs|http://y", "/my pkgs"])])
+        reqs = reqs[:rng.randint(0, 2)] + [{"product": "eups", "fwd": True, "force": rng.random() < 0.3, "version": None, "local": False},
+                                           {"product": "eups", "fwd": False, "force": rng.random() < 0.3, "version": None, "local": False}]
     return {"kind": "stack", "products": prods, "requests": reqs, "extra": extra}
 
 
@@ -319,7 +354,7 @@ def gen_shell(rng):
             cmds.append("")
         else:
             cmds.append(rng.choice(["export 1x=3", "unset 1x", "export", "unset", "echo hi", ";", "export A=1;;", "A=1",
-                                    "export A=$B", "export A=a#b", "#c", "export A=~", "unset -f A", "export A=\"b\"",
+                                    "export A=$B", "export A=a#b", "#c", "export A=~", "unset -f A", "unset -f", "unset -f A N1", "unset -f 1x", "unset -v A", "export A=\"b\"",
                                     "export A=a\\ b", "export A=*", "(export A=1)", "export A=1 &", "export A=1 | true"]))
     sep = rng.choice([";\n", ";\n", "\n", ";", " ; ", "\n\n"])
     text = sep.join(cmds) + rng.choice(["", "\n", ";", ";\n"])
@@ -454,6 +489,8 @@ def impl_acts(case):
         for a in case["acts"]:
             if a["op"] == "envSet":
                 act = Action("t.table", "envSet", [a["k"], a["text"]], {})
+            elif a["op"] == "alias":
+                act = Action("t.table", "addAlias", [a["k"], a["v"]], {})
             elif a["op"] == "path":
                 act = Action("t.table", "envPrepend", [a["k"], a["text"]], dict(append=a["append"]))
             else:
@@ -466,7 +503,8 @@ def impl_acts(case):
             cmds = app.setup("prod", eupsenv=E, fwd=o["fwd"])
     except Exception as ex:  # noqa
         return {"exc": type(ex).__name__}
-    return {"cmds": cmds, "old": [list(x) for x in E.oldEnviron.items()], "cur": [list(x) for x in os.environ.items()]}
+    return {"cmds": cmds, "old": [list(x) for x in E.oldEnviron.items()], "cur": [list(x) for x in os.environ.items()],
+            "aliases": [list(x) for x in E.aliases.items()], "oldAliases": [list(x) for x in E.oldAliases.items()]}
 
 
 def _stack_request(env_before, req):
@@ -476,13 +514,21 @@ def _stack_request(env_before, req):
     M = common.eups_mod("Eups")
     with _quiet(), contextlib.redirect_stdout(io.StringIO()):
         E = M.Eups(readCache=False, force=req["force"], quiet=1)
+        pre = []
+        real_setup = E.setup
+
+        def recording_setup(*a, **kw):          # os.environ as Eups.setup leaves it, before app.setup's own edits
+            r = real_setup(*a, **kw)
+            pre[:] = [list(x) for x in os.environ.items()]
+            return r
+        E.setup = recording_setup
         if req.get("local"):             # setup -r <directory>
             E.selectVRO(productDir=req["dir"])
             cmds = app.setup(req["product"], None, productRoot=req["dir"], eupsenv=E, fwd=req["fwd"])
         else:
             E.selectVRO(versionName=req["version"])
             cmds = app.setup(req["product"], req["version"], eupsenv=E, fwd=req["fwd"])
-    return {"cmds": cmds, "old": [list(x) for x in E.oldEnviron.items()], "cur": [list(x) for x in os.environ.items()],
+    return {"cmds": cmds, "pre": pre, "old": [list(x) for x in E.oldEnviron.items()], "cur": [list(x) for x in os.environ.items()],
             "aliases": [list(x) for x in E.aliases.items()], "oldAliases": [list(x) for x in E.oldAliases.items()]}
 
 
@@ -536,6 +582,8 @@ def impl_stack(case):
             if st["cmds"] == ["false"]:
                 continue
             env = st["cur"]                 # the next command starts from the environment eups computed
+            if "EUPS_PATH" not in dict(env):
+                break                       # unsetup eups: nothing can follow
         os.environ.clear()
         os.environ.update(saved)
         return {"steps": steps, "root": root}
@@ -605,7 +653,9 @@ def model_request(case):
     if k == "acts":
         acts = []
         for a in case["acts"]:
-            if a["op"] == "unset":
+            if a["op"] == "alias":
+                acts.append({"op": "alias", "force": case["force"], "fwd": a["fwd"], "k": a["k"], "v": a["v"]})
+            elif a["op"] == "unset":
                 if a["fwd"]:
                     acts.append({"op": "unset", "k": a["k"]})
             else:
@@ -658,7 +708,6 @@ def check_delta(ctx, case, inp, base, old_after, computed, shells, is_eups, mode
         return
     if any(k in dict(computed) or k in dict(base) for k in alias_names):
         ctx.hist("delta:alias-named-like-variable")
-        return
     ctx.hist("delta:in-claim")
     exp = expected_after_sourcing(base, computed, is_eups)
     for sh, got in shells.items():
@@ -709,8 +758,10 @@ def evaluate(ctx, cases):
             for j, st in enumerate(io_["steps"]):
                 if "cmds" in st and st["cmds"] != ["false"]:
                     where.append((i, j))
-                    reqs.append({"m": "c05", "op": "emit", "old": st["old"], "new": st["cur"], "aliases": st["aliases"],
-                                 "oldAliases": st["oldAliases"], "opts": dict(SH_OPTS, fwd=c["requests"][j]["fwd"])})
+                    reqs.append({"m": "c05", "op": "emit", "old": st["old"], "new": st["pre"], "aliases": st["aliases"],
+                                 "oldAliases": st["oldAliases"],
+                                 "opts": dict(SH_OPTS, fwd=c["requests"][j]["fwd"],
+                                              isEups=c["requests"][j]["product"] == "eups")})
         else:
             where.append((i, None))
             reqs.append(model_request(c))
@@ -749,6 +800,8 @@ def evaluate(ctx, cases):
             for j, st in enumerate(io_["steps"]):
                 req = c["requests"][j]
                 ctx.hist("stack:%s%s" % ("setup" if req["fwd"] else "unsetup", "/force" if req["force"] else ""))
+                if req["product"] == "eups" and not req["fwd"] and "cmds" in st and st["cmds"] != ["false"]:
+                    ctx.hist("stack:unsetup-eups")
                 if "exc" in st:
                     ctx.hist("stack:exception=" + st["exc"])
                     continue
@@ -762,7 +815,9 @@ def evaluate(ctx, cases):
                 if m is None or m.get("cmds") != st["cmds"]:
                     ctx.disagree("emitted_commands", sub, _subst(st["cmds"], root), _subst(m, root))
                 compare_shell_model(ctx, sub, st["shells"], sheval[(i, j)], "emitted", root=root)
-                check_delta(ctx, c, sub, st["base"], st["old"], st["cur"], st["shells"], False,
+                if m is not None and "final" in m and m["final"] != st["cur"]:
+                    ctx.disagree("computed_environment", sub, _subst(st["cur"], root), _subst(m["final"], root))
+                check_delta(ctx, c, sub, st["base"], st["old"], st["cur"], st["shells"], req["product"] == "eups",
                             _subst(m and m.get("cmds"), root), _subst(st["cmds"], root), root=root,
                             alias_names=[k for k, _ in st["aliases"]] + [k for k, _ in st["oldAliases"]])
             ctx.case(key=c, nontrivial=any_cmd, sample={"input": c, "impl": io_} if ctx.evaluations % 199 == 0 else None)
@@ -776,6 +831,11 @@ def evaluate(ctx, cases):
             continue
         o = c["opts"]
         ctx.hist("%s:shell=%s%s" % (kind, o["shell"], "/noaction" if o["noaction"] else ""))
+        if kind == "emit" and o["isEups"] and not o["fwd"] and o["shell"] == "sh" and not o["noaction"]:
+            dropped = [k for k in ("EUPS_PATH", "EUPS_PKGROOT", "EUPS_SHELL") if k in dict(c["old"]) and k in dict(c["new"])]
+            ctx.hist("emit:unsetup-eups")
+            if dropped:
+                ctx.hist("emit:unsetup-eups/dropped-variable-in-caller-env")
         ctx.hist("ncmds=%s" % min(len(io_["cmds"]), 10))
         if any(x.startswith("export ") and "='" in x for x in io_["cmds"]):
             ctx.hist("quoted-value")
@@ -790,8 +850,9 @@ def evaluate(ctx, cases):
             mo = {"cmds": m["cmds"], "cur": m["final"]}
             io_cmp = {"cmds": io_["cmds"], "cur": io_["cur"]}
         else:
-            mo = {"cmds": m["cmds"], "old": m["old"], "cur": m["cur"]}
-            io_cmp = {"cmds": io_["cmds"], "old": io_["old"], "cur": io_["cur"]}
+            mo = {"cmds": m["cmds"], "old": m["old"], "cur": m["cur"], "aliases": m["aliases"], "oldAliases": m["oldAliases"]}
+            io_cmp = {"cmds": io_["cmds"], "old": io_["old"], "cur": io_["cur"], "aliases": io_["aliases"],
+                      "oldAliases": io_["oldAliases"]}
         if mo != io_cmp:
             ctx.disagree("emitted_commands" if mo["cmds"] != io_cmp["cmds"] else "environment_bookkeeping", inp, io_cmp, mo)
         if io_.get("shells") is not None:
@@ -799,7 +860,8 @@ def evaluate(ctx, cases):
             compare_shell_model(ctx, inp, io_["shells"], sheval[(i, None)], "emitted")
             if not o["noaction"]:
                 check_delta(ctx, c, inp, base, io_["old"], io_["cur"], io_["shells"], o["isEups"], mo, io_cmp,
-                            alias_names=[k for k, _ in c.get("aliases", [])] + [k for k, _ in c.get("oldAliases", [])])
+                            alias_names=[k for k, _ in io_.get("aliases", c.get("aliases", []))] +
+                            [k for k, _ in io_.get("oldAliases", c.get("oldAliases", []))])
         ctx.case(key=c, nontrivial=bool(io_["cmds"]), sample={"input": c, "impl": io_} if ctx.evaluations % 499 == 0 else None)
 
 
@@ -819,12 +881,34 @@ def gen_case(rng, kind):
     return {"emit": gen_emit, "acts": gen_acts, "stack": gen_stack, "shell": gen_shell}[kind](rng)
 
 
+ENUM_ALPHA = "a/= \t\n<>|&;()'"
+
+
+def enum_cases(maxlen):
+    """Every value of length <= maxlen over a 14-symbol alphabet (the metacharacters, three safe characters and the
+    single quote), each as a new variable; 12 variables per case, next to an untouched caller's environment."""
+    import itertools
+    vals = [""]
+    for n in range(1, maxlen + 1):
+        vals += ["".join(t) for t in itertools.product(ENUM_ALPHA, repeat=n)]
+    out = []
+    for i in range(0, len(vals), 12):
+        new = [["KEEP", "k e e p"]] + [["V%d" % j, v] for j, v in enumerate(vals[i:i + 12])]
+        out.append({"kind": "emit", "old": [["KEEP", "k e e p"], ["GONE", "x"]], "forgotten": [], "new": new, "aliases": [],
+                    "oldAliases": [], "opts": dict(SH_OPTS)})
+    return out
+
+
 def run(ctx):
     cases = corpus_cases()
     ctx.hist("corpus", len(cases))
     evaluate(ctx, cases)
-    budget = [("emit", ctx.n(1200, 40000)), ("acts", ctx.n(600, 20000)), ("shell", ctx.n(1500, 60000)),
-              ("stack", ctx.n(80, 2500))]
+    en = enum_cases(ctx.n(2, 3))
+    ctx.hist("enumerated-values", sum(len(c["new"]) - 1 for c in en))
+    for i in range(0, len(en), 600):
+        evaluate(ctx, en[i:i + 600])
+    budget = [("emit", ctx.n(2400, 60000)), ("acts", ctx.n(1200, 30000)), ("shell", ctx.n(3000, 100000)),
+              ("stack", ctx.n(200, 4000))]
     for kind, n in budget:
         done = 0
         batch = 600 if kind != "stack" else 48
@@ -837,6 +921,9 @@ def run(ctx):
         raise common.InfraError("degenerate distribution: %d deltas inside the claim" % h.get("delta:in-claim", 0))
     if h.get("text:in-fragment", 0) < 0.3 * max(1, h.get("kind=shell", 0)):
         raise common.InfraError("degenerate distribution: %d shell texts inside the fragment" % h.get("text:in-fragment", 0))
+    if h.get("emit:unsetup-eups/dropped-variable-in-caller-env", 0) < 20 or h.get("stack:unsetup-eups", 0) < 5:
+        raise common.InfraError("degenerate distribution: unsetup of eups itself reached %d (synthetic) / %d (real stack) times"
+                                % (h.get("emit:unsetup-eups/dropped-variable-in-caller-env", 0), h.get("stack:unsetup-eups", 0)))
     if h.get("quoted-value", 0) < 0.2 * max(1, h.get("kind=emit", 0)):
         raise common.InfraError("degenerate distribution: %d cases with a quoted value" % h.get("quoted-value", 0))
 
